@@ -394,6 +394,23 @@ class Gen(object):
                     out.append(c.with_boost(rng.choice(BOOSTS)))
             return out
         lo = 0 if self.mode == "B" else 1
+        if self.mode != "A1" and rng.random() < 0.07:
+            # absorption probe: a fielded match-all (Every(f), or a range / wildcard that normalises to it) next to a clause
+            # that reports field f but can match documents WITHOUT a term in f (binary operators across fields - Otherwise
+            # falls back to its second operand -, negations, mixed-field compounds). Only a disjunction may absorb, and only
+            # clauses that cannot match outside f.
+            f = rng.choice(["t", "u", "k"])
+            g = rng.choice([x for x in ("t", "u", "k") if x != f])
+            ev = rng.choice([query.Every(f), query.Every(f), query.TermRange(f, None, None), query.Wildcard(f, "*")])
+            inf = rng.choice([self.term(f), query.Term(f, "zzzabsent"), query.Term(f, "zzzabsent"), query.Prefix(f, "zzz")])
+            other = self.term(g)
+            B = rng.choice([query.Otherwise, query.Otherwise, query.AndMaybe, query.AndNot, query.Require])
+            x = rng.choice([lambda: B(inf, other), lambda: B(other, inf), lambda: query.Not(inf),
+                            lambda: query.Or([inf, other]), lambda: query.And([inf, other]) if self.mode == "B" else query.Or([other, inf]),
+                            lambda: query.DisjunctionMax([inf, other]), lambda: query.AndNot(other, inf)])()
+            ch = [ev, x] + ([sub()] if rng.random() < 0.3 else [])
+            rng.shuffle(ch)
+            return (query.Or if rng.random() < 0.7 else query.DisjunctionMax)(ch)
         if rng.random() < 0.06:
             # binary operator over two same-class compounds that share a clause: the operands must stay two operands
             # (no merging / de-duplication across them)
